@@ -22,7 +22,7 @@ REP = [("a", 0x61), ("b", 0x62), ("f_i", None), ("acutecomb", 0x301), ("gravecom
 ALLOWED = {
     "a": ["top", "bottom", "top.alt"],
     "b": ["top", "bottom"],
-    "f_i": ["top_1", "top_2", "bottom_1", "_1", "top"],
+    "f_i": ["top_1", "top_2", "top_3", "bottom_1", "_1", "top"],
     "acutecomb": ["_top", "top", "_top.alt", "_bottom"],
     "gravecomb": ["_top", "top"],
     "cedillacomb": ["_bottom", "bottom", "_top"],
@@ -214,8 +214,8 @@ class C06(Property):
 
     def bounds(self, tier):
         if tier == "quick":
-            return {"depth": 9, "plain_depth": 4, "env_depth": 3, "npos_deep": 2}
-        return {"depth": 9, "plain_depth": 5, "env_depth": 3, "npos_deep": 2}
+            return {"depth": 9, "plain_depth": 4, "env_depth": 3, "npos_deep": 2, "group_depth": 5}
+        return {"depth": 9, "plain_depth": 5, "env_depth": 4, "npos_deep": 2, "group_depth": 6}
 
     SEEDS = [
         [["a", "top", 0], ["a", "top.alt", 1], ["acutecomb", "_top", 1], ["acutecomb", "_top.alt", 2]],
@@ -237,6 +237,8 @@ class C06(Property):
     def ops(self, h, b):
         head, anc = h[0], h[1:]
         maxd = b["plain_depth"] if not head["env"] else b["env_depth"]
+        if head["env"] == ["group"]:
+            maxd = b["group_depth"]  # mark-class grouping needs >= 4 anchors to have something to group
         if "seed" in head:
             maxd = head["seed"] + 2
         if len(h) >= maxd:
@@ -245,6 +247,8 @@ class C06(Property):
         # canonical (sorted) construction order; at most one anchor per (glyph, name)
         deep = len(anc) >= 2
         npos = b["npos_deep"] if deep else len(POS)
+        if head["env"] == ["group"] and "seed" not in head:
+            npos = 1 if anc else 2
         have = {(a[0], a[1]) for a in anc}
         for i in range(last + 1, len(OPS)):
             g, n = OPS[i]
